@@ -78,6 +78,9 @@ def analyse(prop: str, root: str, tier: str, quiet: bool = False, overlay=None):
         for rel in sorted(repo.consulted):
             mi = repo.modules.get(rel)
             for q, opt, dflt in (getattr(mi, "specialised", None) or []):
+                if q == "<module>":
+                    rep.note(f"{rel}: named constant `{opt}` is newer than the pinned tree - its uses are read as the literal it names")
+                    continue
                 rep.note(f"{rel}:{q}: option `{opt}` is newer than the pinned tree and passed by no call in the package - analysed at its default {dflt} (what it does when turned on is not analysed)")
         code = rep.finish()
     except AnalysisError as exc:
